@@ -19,13 +19,18 @@ CHECKS = {
         technique="TLA+ MintAPI + TLC: generated histories replayed, traces validated; all interleavings of concurrent requests validated by a TLC linearizability search",
         text=SEQ + "Concurrency: for 13 (thorough 16) scenarios of 2-3 requests on one secret the harness enumerates every "
              "Mazurkiewicz-inequivalent interleaving at storage/LN-call granularity on the real mint (sleep sets, complete), and TLC "
-             "(MintAccept.tla) searches a linearization of each execution; none found = double spend.",
+             "(MintAccept.tla) searches a linearization of each execution; none found = double spend. A directed matrix re-presents the "
+             "consumed secrets after every way a melt ends PAID and after a swap (state check, swap, other melt quote, changed "
+             "witness / DLEQ / amount), before and after a restart.",
         note=TRUST),
     "C02": dict(
         category="model_checking", design_ref="§5 C02",
         technique="TLA+ MintAPI value ledger (msat) + TLC trace validation against a fee-charging Lightning model",
         text=SEQ + "The NoInflation invariant ((outstanding + owed) * 1000 + lnOut <= lnIn) and the guard feeLimit <= feeReserve are "
-             "evaluated by TLC after every real step, with fees in {0,1,100,999,1000,2500} ppk and a backend that charges the whole limit.",
+             "evaluated by TLC after every real step, with fees in {0,1,100,999,1000,2500} ppk and a backend that charges the whole limit. "
+             "Request classes include NUT-15 partial payments, outside invoices that are not whole sats, internal settlement, forged invoices "
+             "carrying an own payment hash, and follow-ups of every quote request the model refuses (ghost ids); directed matrices cover own "
+             "invoices x quote state and msat classes with exact inputs; MintGen is also model-checked exhaustively (MintModel.cfg).",
         note=TRUST),
     "C03": dict(
         category="model_checking", design_ref="§5 C03",
@@ -94,7 +99,9 @@ CHECKS = {
         technique="TLA+ Bdhke.tla over ECPrim (Java module overrides) evaluated by TLC as reference on logged Go results; BdhkeToy.tla model-checked exhaustively",
         text="Spec-as-reference differential: Blind/Sign/Unblind/Verify/HashE/DLEQ of the Go code on edge + sampled inputs, every DLEQ a real mint "
              "emits, stores and returns after restart, wallet-style (e,s,r) proofs and a single-field tamper table are recomputed by TLC from "
-             "the TLA+ definitions; the algebraic identities are checked for all values in toy groups Z_q.",
+             "the TLA+ definitions; the algebraic identities are checked for all values in toy groups Z_q. Wallet path: in TLC-generated and "
+             "directed wallet histories (incl. melts that stay pending and then fail) the (e,s,r) of every proof a real wallet stores after every "
+             "operation and of every proof in a token it hands out (as decoded by the recipient) is re-verified by TLC under the mint's published key.",
         note="Inputs sampled, not exhaustive; ECPrim.java (JDK SHA-256/HMAC/BigInteger + ~100 lines of curve arithmetic) is trusted, self-tested against published vectors."),
     "C11": dict(
         category="other", design_ref="§5 C11",
@@ -139,17 +146,22 @@ CHECKS = {
         note="Wallet content injected into the wallet store as genuine proofs (hook); SentFee in Wallet.tla defines the fee of a fee-inclusive send."),
     "C19": dict(
         category="model_checking", design_ref="§5 C19",
-        technique="TLA+ Wallet.tla counter discipline (per-request) and RestoreStep checked by TLC on recorded wallet histories",
+        technique="TLA+ Wallet.tla counter discipline (per-request) and RestoreStep checked by TLC on recorded wallet histories incl. a wallet process killed at every storage write / HTTP call; Counter.tla (counter and restore protocol with kills) model-checked exhaustively",
         text="The transport maps every submitted B_ to its (wallet, keyset, counter); TLC checks that no signed counter is submitted again, that the "
              "stored counter is past every signed one after every operation, and that a restore (also of a restored wallet) recovers exactly "
-             "the live deterministic outputs of the seed.",
-        note="Quick histories are short; the >300-output and crash-point parts are in the thorough tier (see DESIGN.md)."),
+             "the live deterministic outputs of the seed. Crash clause: for mint / send / receive / melt / check-melt / swap-to-trusted the wallet "
+             "process is frozen before each of its storage writes, HTTP requests and HTTP replies (every k), restored from the mnemonic into an "
+             "empty directory, continued and restored again; the restored value is compared with the mint-side value of the seed's signed, "
+             "unspent outputs. Counter.tla proves the protocol (and rejects three defective variants) for all schedules within small constants.",
+        note="Directed histories cover > 300 outputs on one keyset and restore-continue-restore; bbolt's own crash atomicity is assumed."),
     "C20": dict(
         category="model_checking", design_ref="§5 C20",
         technique="TLA+ Http.tla (status/shape/error-code table driven by MintAPI's causes, NUT-19 cache) checked by TLC on traces driven through the real handler with hand-built JSON",
         text="MintAPI histories run entirely through the HTTP handler with JSON built by hand; TLC checks status <=> decision, 400 bodies exactly "
              "{detail, code} with a code naming a cause that actually holds, NUT shapes of 200 bodies (hand-written predicate), keys/info shapes "
-             "after rotations, identical replays served from cache without storage calls, near-replays never; plus malformed requests.",
+             "after rotations, identical replays served from cache without storage calls, near-replays never; plus malformed requests. Fault "
+             "clause: every victim operation is driven through the handler while its k-th storage / Lightning call fails (every k); the refusal "
+             "must keep the {detail, code} body and must not carry the text of the failing call's error (the injected errors carry a marker).",
         note=TRUST),
 }
 
